@@ -44,6 +44,25 @@ fn main() {
     }
     common::install_panic_hook();
     common::start_watchdog();
+    // safety net: every call into the crate is meant to run under `guarded`; a panic that still escapes a monitor is
+    // reported with its location (the driver turns a panic located in the crate into a violation, any other into a
+    // broken harness) instead of killing the process without a trace
+    let outcome = common::guarded(std::panic::AssertUnwindSafe(|| dispatch(cmd, &job)));
+    if !matches!(outcome, common::Caught::Ok(())) {
+        let msg = match outcome {
+            common::Caught::Panic(m) => m,
+            common::Caught::Budget(n) => format!("<WordBudget {n}>"),
+            _ => "<ReplayExhausted>".to_string(),
+        };
+        common::emit(&serde_json::json!({"ev": "escaped_panic", "cmd": cmd, "msg": msg, "ctx": common::get_ctx()}));
+        common::flush();
+        std::process::exit(4);
+    }
+    common::flush();
+}
+
+fn dispatch(cmd: &str, job: &Value) {
+    let job = job.clone();
     match cmd {
         "adv" => mon_adv::run(&job),
         "replay-adv" => mon_adv::replay(&job),
@@ -74,5 +93,4 @@ fn main() {
             std::process::exit(2);
         }
     }
-    common::flush();
 }
